@@ -1,4 +1,5 @@
 import MalVerif.Py.TieModelSt
+import MalVerif.Py.TieModelStPartial
 import MalVerif.PropsGen.C05
 /-
 C05 for the translated code, the clause "An operation that raises leaves the observable state unchanged".
@@ -19,7 +20,7 @@ the WHOLE heap (hence `abs` of it, the observable state) is unchanged — with t
 | `add_association`, `remove_attacker` | none |
 | `remove_entry_point` | none — it never raises |
 | `remove_association`, `remove_asset` | `EqId env`, `Inv s` |
-| `remove_asset_from_association` | `EqId env`, `Inv s`, and the rejection is not "asset in neither field" (`_of_guard`) — see the note there |
+| `remove_asset_from_association` | `EqId env`, `Inv s` |
 | `add_attacker`, `add_entry_point` | cannot raise (`: H`), nothing to state |
 
 Without `Inv` the removals DO raise half-way (that is what the harness's "wild histories" see): the state they leave
@@ -142,10 +143,8 @@ theorem remove_asset_rejected_heap_unchanged {env : ModelEnv} (hE : EqId env) (s
   | error e' => exact absurd hm ((C05.remove_asset_raises_iff hE s hI a).1 ⟨e', hr⟩)
 
 /-- **`remove_asset_from_association`** in a coherent model, the two guard rejections (`asset` / `association` not
-part of the model): nothing has been written.  (The third rejection — the asset is in neither field, `found` stays
-`False` — is raised by the LAST statement; that the two loops have written nothing then is
-`TieModelStPartial.remove_asset_from_association_st_partial_state`, if present, and is what the correspondence
-check observes.) -/
+part of the model): nothing has been written.  (Superseded by `remove_asset_from_association_rejected_heap_unchanged` below, which has no side condition; kept
+because its proof does not need the loop analysis of `Py/TieModelStPartial.lean`.) -/
 theorem remove_asset_from_association_rejected_heap_unchanged_of_guard {env : ModelEnv} (hE : EqId env) (s : H)
     (hI : Inv s) (a : ARef) (l : LRef) (e : PyErr)
     (hfield : a ∈ (s.l l).left ∨ a ∈ (s.l l).right ∨ a ∉ s.assets ∨ l ∉ s.associations)
@@ -167,6 +166,68 @@ theorem remove_asset_from_association_rejected_heap_unchanged_of_guard {env : Mo
       · exact absurd h3 h2
       · exact absurd hma h3
       · exact absurd hml h3
+
+/-- **`remove_asset_from_association`** in a coherent model, every rejection (asset / association not part of the
+model, asset in neither field): nothing has been written -/
+theorem remove_asset_from_association_rejected_heap_unchanged {env : ModelEnv} (hE : EqId env) (s : H)
+    (hI : Inv s) (a : ARef) (l : LRef) (e : PyErr)
+    (h : (run (model_remove_asset_from_association_st s env a l)).2 = .error e) :
+    (run (model_remove_asset_from_association_st s env a l)).1 = s := by
+  rcases ((remove_asset_from_association_st_partial_state s env a l).run h).2.2 with h1 | h1
+  · exact h1
+  · have h2 : (run (model_remove_association_st s env l)).2 = .error e := by rw [h1]; rfl
+    have h3 := remove_association_rejected_heap_unchanged hE s hI l e h2
+    rw [h1] at h3
+    exact h3
+
+/-! ### without the invariant the removals raise half-way: the state they leave
+
+(what the harness's "wild histories" observe; proofs in `Py/TieModelStPartial.lean`, no hypothesis at all) -/
+
+/-- **`remove_asset`**: whenever it raises, either nothing was written, or the guard had passed and the asset is
+STILL listed with its id and name reserved (`assets`, `asset_ids`, `asset_names`, `next_id`, `attackers`, every
+attachment and entry-point tuple are as before): only association fields / back-references / `associations` /
+`_type_to_association` may have been written -/
+theorem remove_asset_partial_state (s : H) (env : ModelEnv) (a : ARef) (e : PyErr)
+    (h : (run (model_remove_asset_st s env a)).2 = .error e) :
+    let s' := (run (model_remove_asset_st s env a)).1
+    s' = s ∨ (pyIn (eqAsset env s) s.assets a = true ∧ s'.assets = s.assets ∧ s'.asset_ids = s.asset_ids ∧
+      s'.asset_names = s.asset_names ∧ s'.next_id = s.next_id ∧ s'.attackers = s.attackers ∧ s'.t = s.t ∧
+      s'.e = s.e) :=
+  (remove_asset_st_partial_state s env a).run h
+
+/-- **`remove_association`**: whenever it raises, either nothing was written, or the guard had passed, only
+`associations` lists of asset objects were written, and the model's own two fields are either both as before or the
+association is gone from `model.associations` while `_type_to_association` still lists it -/
+theorem remove_association_partial_state (s : H) (env : ModelEnv) (l : LRef) (e : PyErr)
+    (h : (run (model_remove_association_st s env l)).2 = .error e) :
+    let s' := (run (model_remove_association_st s env l)).1
+    s' = s ∨ (pyIn (eqAssoc env s) s.associations l = true ∧
+      (s'.assets = s.assets ∧ s'.attackers = s.attackers ∧ s'.asset_ids = s.asset_ids ∧
+        s'.asset_names = s.asset_names ∧ s'.next_id = s.next_id ∧ s'.l = s.l ∧ s'.t = s.t ∧ s'.e = s.e) ∧
+      ((s'.associations = s.associations ∧ s'._type_to_association = s._type_to_association) ∨
+       (s'.associations = s.associations.eraseP (fun y => eqAssoc env s y l) ∧
+         s'._type_to_association = s._type_to_association))) :=
+  (remove_association_st_partial_state s env l).run h
+
+/-- **`remove_asset_from_association`**: whenever it raises, the model's bookkeeping of assets and attackers is
+untouched; a `LookupError` (any of its three rejections, or the callee's) means nothing at all was written; any
+other exception is that of `remove_association` called on the unchanged heap -/
+theorem remove_asset_from_association_partial_state (s : H) (env : ModelEnv) (a : ARef) (l : LRef) (e : PyErr)
+    (h : (run (model_remove_asset_from_association_st s env a l)).2 = .error e) :
+    let s' := (run (model_remove_asset_from_association_st s env a l)).1
+    (s'.assets = s.assets ∧ s'.attackers = s.attackers ∧ s'.asset_ids = s.asset_ids ∧
+      s'.asset_names = s.asset_names ∧ s'.next_id = s.next_id ∧ s'.t = s.t ∧ s'.e = s.e) ∧
+    (e = .lookupError → s' = s) ∧ (s' = s ∨ model_remove_association_st s env l = .error (e, s')) :=
+  (remove_asset_from_association_st_partial_state s env a l).run h
+
+/-- a half-way state is reachable: on `exHeap` (association 0 is listed by the model and by asset 0, but
+`_type_to_association` has no group for it) `remove_asset(asset0)` raises `KeyError`; the asset is still listed, the
+association is gone -/
+example :
+    (run (model_remove_asset_st exHeap exEnv 0)).2 = .error .keyError ∧
+    (run (model_remove_asset_st exHeap exEnv 0)).1.assets = [0] ∧ exHeap.associations = [0] ∧
+    (run (model_remove_asset_st exHeap exEnv 0)).1.associations = [] := ⟨rfl, rfl, rfl, rfl⟩
 
 /-! ### the hypotheses are satisfiable; the statement is not vacuous: the code before 4598cf1 violates it -/
 
